@@ -132,8 +132,9 @@ def exc_name(e):
     return "Leak:" + type(e).__name__
 
 
-def apply_op(f, op):
-    """Execute on the real filesystem; returns ("ok", canonical value) or ("err", class, exc)."""
+def apply_op(f, op, keep_order=False):
+    """Execute on the real filesystem; returns ("ok", canonical value) or ("err", class, exc).
+    Listings are sorted unless `keep_order` (the filesystem's own order) is requested."""
     name = op[0]
 
     def go():
@@ -144,7 +145,8 @@ def apply_op(f, op):
         if name == "isfile":
             return "bool:%d" % f.isfile(op[1])
         if name == "listdir":
-            return "names:" + vlib.hxlist(f.listdir(op[1]))  # the filesystem's own order
+            names = f.listdir(op[1])
+            return "names:" + vlib.hxlist(names if keep_order else sorted(names))
         if name == "getsize":
             n = f.getsize(op[1])
             return "nat:%d" % (n if f.isfile(op[1]) else 0)
@@ -491,7 +493,7 @@ def run_history(kind, rng, n_ops, hist_id, names=NAMES, gen=gen_op, prefix_ops=(
             if pre is None:
                 break
             op = planned.pop(0) if planned else gen(rng, pre, names)
-            impl = apply_op(b.fs, op)
+            impl = apply_op(b.fs, op, keep_order=True)
             post = snapshot(b.fs)
             steps.append(Step(kind, pre, op, impl, post, hist_id, i))
             pre = post
